@@ -46,7 +46,8 @@ BINDINGS = ["none", "none", "none", "param", "assigned-before", "assigned-after"
             "with-target-before", "module-level", "imported", "annassign-before", "augassign-before",
             "module-level-below", "imported-below", "helper-def-below", "class-below",
             "unpack-before", "nested-unpack-before", "for-nested-before", "with-nested-before", "list-unpack-before",
-            "module-level+rebound-below", "imported+rebound-below", "module-level+with-below"]
+            "module-level+rebound-below", "imported+rebound-below", "module-level+with-below",
+            "attr-store-before", "item-store-before"]
 SHAPES = ["noparams", "one", "many", "default", "annotated", "return-ann", "multiline", "multiline-trailing", "method",
           "async", "decorated", "one-line-body", "fixture", "spaces"]
 
@@ -110,6 +111,9 @@ def build(rng, shape, body, binding, name):
     if binding == "with-nested-before": pre = [f"with open('x') as (h0, ({name}, z0)):", "    pass"]
     if binding == "list-unpack-before": pre = [f"[a0, [{name}, c0]] = [1, [2, 3]]"]
     if binding == "augassign-before": pre = ["z = 0", f"{name} = 0", f"{name} += 1"]
+    # storing to an attribute or an item of the name binds nothing: the name is still the (undeclared) fixture
+    if binding == "attr-store-before": pre = [f"{name}.attr = 1"]
+    if binding == "item-store-before": pre = [f"{name}['k'] = 1"]
     stm = [s.replace("{N}", name) if "{{" not in s else s.format(N=name) for s in body[1]]
     if body[0] == "await" and shape != "async":
         stm = [f"print({name})"]
